@@ -27,6 +27,10 @@ MUTANTS = [
     ("vt.contracts.legs_rules", "compute_contracted_info", "cotengra/pathfinders/path_simulated_annealing.py", "        if ix_count < appearances[ix]:\n            # index appears on output", "        if ix_count <= appearances[ix]:\n            # index appears on output"),
     ("vt.contracts.legs_rules", "compute_contracted_info", "cotengra/pathfinders/path_simulated_annealing.py", "        if ix not in legsa:\n            d = size_dict[ix]", "        if True:\n            d = size_dict[ix]"),
     ("vt.contracts.legs_rules", "legs_union", "cotengra/core.py", "new_legs[ix] = new_legs.get(ix, 0) + ix_count", "new_legs[ix] = new_legs.get(ix, 1) + ix_count"),
+    # C09 DP step: the seeded early sieve on the children's scores, a table update that can make an entry worse, a lost update
+    ("vt.contracts.dp_step", "optimize_optimal_connected", "cotengra/pathfinders/path_basic.py", "                        # do sorted simultaneous iteration over ilegs and jlegs", "                        if iscore + jscore > cost_cap:\n                            continue"),
+    ("vt.contracts.dp_step", "optimize_optimal_connected", "cotengra/pathfinders/path_basic.py", "if (current is None) or (new_score < current[1]):", "if True:"),
+    ("vt.contracts.dp_step", "optimize_optimal_connected", "cotengra/pathfinders/path_basic.py", "if (current is None) or (new_score < current[1]):", "if (current is None):"),
     ("vt.contracts.con_cost", "compute_con_cost_flops", "cotengra/pathfinders/path_basic.py", "    return iscore + jscore + cost\n\n\ndef compute_con_cost_max", "    return iscore + cost\n\n\ndef compute_con_cost_max"),
     ("vt.contracts.con_cost", "compute_con_cost_size", "cotengra/pathfinders/path_basic.py", "        else:\n            size *= sizes[ix]\n\n    return max((iscore, jscore, size))", "        else:\n            size += sizes[ix]\n\n    return max((iscore, jscore, size))"),
     ("vt.contracts.path_convert", "linear_to_ssa", "cotengra/pathfinders/path_basic.py", "scon = tuple(ids.pop(c) for c in sorted(con, reverse=True))", "scon = tuple(ids.pop(c) for c in sorted(con))"),
